@@ -14,7 +14,7 @@ fn rss_kb() -> u64 {
 fn leaktest(n: u64) {
     use world::*;
     let case = Case {
-        streams: vec![StreamSpec { side: 0, port: 1, pad: vec![], delay: 0, park: None, ends: [EndScript { w: vec![WOp::Write(3), WOp::Shutdown], r: vec![ROp::ToEof(8)] }, EndScript { w: vec![WOp::Write(2), WOp::Shutdown], r: vec![ROp::ToEof(8)] }] }],
+        streams: vec![StreamSpec { side: 0, port: 1, pad: vec![], delay: 0, park: None, cancel: None, ends: [EndScript { w: vec![WOp::Write(3), WOp::Shutdown], r: vec![ROp::ToEof(8)] }, EndScript { w: vec![WOp::Write(2), WOp::Shutdown], r: vec![ROp::ToEof(8)] }] }],
         ..Case::default()
     };
     for i in 0..n {
